@@ -135,7 +135,13 @@ def corpus_ops():
             ("hist leo8 - 8 8 ; r 4096 5 all 0 - nil ; r 4096 5 all 0,1 - nil", {"cat": "corpus", "n": 2})]
 
 
+def flag_check(line, meta, flags):
+    if flags.get("l1") == "0":
+        return "word-level bit-field model (BitfieldImpl.cacheID) disagrees with the L0 cache key"
+    return None
+
+
 def execute(ops, ctx):
     def key(line, meta, g):
         return line if meta.get("n", 0) >= 2 else None
-    return C.execute_diff(ops, ctx, key)
+    return C.execute_diff(ops, ctx, key, flag_check)
